@@ -46,8 +46,16 @@ func ScopeDependentValues() {
 	inner, err := plush.Render("<%= tm %>/<%= tp %>", mk(inf))
 	vrt.Assert(err == nil, "a time value renders under another format")
 	vrt.Assert(outer != inner, "the two formats give different texts (harness sanity)")
+	inner1, err := plush.Render("<%= tm %>", mk(inf))
+	vrt.Assert(err == nil, "a time value renders under another format")
 	var in, want string
-	switch vrt.Choice(6) {
+	switch vrt.Choice(9) {
+	case 6: // the value leaves the block through return: still a time when the block is done
+		in, want = "<% contentFor(\"c\") { %>[<% return tm %><% } %><%= contentOf(\"c\", {TIME_FORMAT: F}) %>", "["+inner1
+	case 7:
+		in, want = "<%= contentOf(\"none\", {TIME_FORMAT: F}) { %>[<% return tm %><% } %>", "["+inner1
+	case 8:
+		in, want = "<%= own() { %>[<% return tm %><% } %>", "["+inner1
 	case 0:
 		in, want = "<%= partial(\"p\", {TIME_FORMAT: F}) %>|<%= tm %>/<%= tp %>", inner+"|"+outer
 	case 1:
